@@ -65,3 +65,17 @@ reg("C17",
   "line_range judged only with line numbers; no control characters other than newline and tab; marker position in Syntax (non-traceback) and traceback window shape are DRIFT-only.",
   "TLA+ spec Syntax.tla; TLC exhaustive model check of the pipeline design with defect switches + TLC record validation (batch) of real Syntax/Traceback renders",
   "DESIGN.md §4 C17")
+
+reg("C11",
+    "ConsoleConc.tla models a print and a refresh at the grain of the code's critical sections (hook phase under the live lock, frame render, write "
+    "under the console lock); TLC checks all interleavings of a 2-thread program against the Screen.tla invariants and deadlock freedom for the intended "
+    "design (atomic print) and reports that the faithful design violates the screen invariant (the stale-erase race, a recorded known finding).  Real "
+    "threads then run random programs (2-4 threads x 1-2 calls over print/log/capture/update+refresh/refresh/advance, with no display, a Live or a "
+    "Progress, optionally with the refresh thread) under the deterministic scheduler: DFS with pre-emption bound 2 over lock/write/event points, bound 1 "
+    "over every executed line of console.py/live.py/live_render.py/progress.py, random and PCT schedules; every recorded execution (calls, hook phases, "
+    "writes, recorded copy) is judged by TLC: each print reaches the file exactly once and contiguously, captures are isolated, record order equals file "
+    "order, no deadlock, and TLC replays the writes on Screen.tla for the C10 screen invariant.  Bounded schedules, not all.",
+    "Trusted: engine/dsched.py (thread serialisation, lock/event proxies), engine/termlex.py, observation of the hook phase by wrapping "
+    "LiveRender.position_cursor. No pre-emption inside a bytecode; <= 4 workers. Screen rejections attributable to the stale-erase race are reported as KNOWN-FINDING.",
+    "TLA+ specs ConsoleConc.tla + Screen.tla; TLC model check of all interleavings of the fine-grain model + TLC validation of histories recorded from real threads under a deterministic scheduler (systematic pre-emption-bounded DFS, random, PCT)",
+    "DESIGN.md §4 C11, §5")
